@@ -969,6 +969,7 @@ def run_job(job):
 run_job_safe = core.safe(run_job)
 
 SPARK_CHUNK = 4
+SPARK_BUDGET_S = 1800  # wall-clock bound of the Spark part of one evaluate() call
 
 
 def _spark_child(inp, outp):
@@ -1008,9 +1009,18 @@ def run_spark_jobs(jobs):
     import subprocess
     import sys
 
+    import time
+
     d = core.scratch_dir()
     res = []
+    t0 = time.time()
     for k in range(0, len(jobs), SPARK_CHUNK):
+        if time.time() - t0 > SPARK_BUDGET_S:
+            # the local Spark of this sandbox needs minutes per job under load: the Spark part of a run is bounded, what does not fit is
+            # excluded and counted (like a driver that ran out of memory), never reported
+            res += [{"__error__": "SparkTimeout", "text": "Spark time budget of the run used up (treated like java.lang.OutOfMemoryError of the sandbox's Spark driver)", "tb": ""}
+                    for _ in jobs[k:]]
+            break
         inp, outp = d / f"spark_in_{k}.pkl", d / f"spark_out_{k}.pkl"
         pickle.dump(jobs[k:k + SPARK_CHUNK], open(inp, "wb"))
         env = dict(os.environ)
